@@ -41,6 +41,28 @@ impl ScaleFunction for ProbeScale {
     }
 }
 
+/// Scale function whose `f` and `f_inv` return ARBITRARY non-NaN values: stands for K0, K1, K2, K3 and any other
+/// implementation of the trait at once, for clauses that must not depend on it (aggregates are exact whatever gets fused).
+#[derive(Clone, Copy, Debug)]
+pub struct AnyScale {
+    pub pad: u8,
+}
+impl ScaleFunction for AnyScale {
+    fn delta(&self) -> f64 {
+        2.0
+    }
+    fn f(&self, _q: f64, _n: usize) -> f64 {
+        let v = any_f64();
+        asm!(!v.is_nan());
+        v
+    }
+    fn f_inv(&self, _k: f64, _n: usize) -> f64 {
+        let v = any_f64();
+        asm!(!v.is_nan());
+        v
+    }
+}
+
 struct Parts {
     n: usize,
     w: [f64; 3],
@@ -352,6 +374,27 @@ harness!(td_insert_merges_backlog0_fuse, unwind 5, {
     chk!("fuse_preserves_sum", s1 == p.m[0] * p.w[0] + x * w && d.sum() == s1);
     chk!("fuse_min_max", d.min() == if x < p.mn { x } else { p.mn } && d.max() == if x > p.mx { x } else { p.mx });
     cov!("fused_into_one", nc == 1);
+});
+
+/// The same merge with a scale function that answers ANYTHING (covers K0..K3 and every other ScaleFunction): whatever
+/// gets fused, count / sum / min / max stay exact, the backlog is emptied and the output is one or two sorted centroids.
+harness!(td_insert_merges_backlog0_anyscale, unwind 5, {
+    let p = arb_parts(1, false);
+    let mut d = TDigest::verif_from_parts(AnyScale { pad: 0 }, 0, &[(p.w[0], p.m[0] * p.w[0])], p.mn, p.mx, 1);
+    let (x, w) = (small(), weight());
+    d.insert_weighted(x, w);
+    let (nc, nb) = d.verif_lens();
+    chk!("anyscale_merged_at_once", nb == 0 && (nc == 1 || nc == 2));
+    let (c1, s1) = raw_totals(&d);
+    chk!("anyscale_count_exact", c1 == p.w[0] + w);
+    chk!("anyscale_sum_exact", s1 == p.m[0] * p.w[0] + x * w);
+    chk!("anyscale_min_max", d.min() == if x < p.mn { x } else { p.mn } && d.max() == if x > p.mx { x } else { p.mx });
+    if nc == 2 {
+        let (a, b) = (d.verif_centroid(0), d.verif_centroid(1));
+        chk!("anyscale_output_sorted", a.1 / a.0 <= b.1 / b.0);
+    }
+    cov!("anyscale_fused", nc == 1);
+    cov!("anyscale_kept", nc == 2);
 });
 
 // ------------------------------------------------------------------ C19
